@@ -402,7 +402,11 @@ match_virtual_override(const CPPFunctionType &other) const {
     return false;
   }
 
-  if (((_flags ^ other._flags) & ~(F_override | F_final)) != 0) {
+  // An overrider need not repeat (or may add) override, final and noexcept,
+  // and it may be written with a trailing return type; none of these is part
+  // of the signature.
+  const int not_signature = F_override | F_final | F_noexcept | F_trailing_return_type;
+  if (((_flags ^ other._flags) & ~not_signature) != 0) {
     return false;
   }
 
